@@ -5,7 +5,7 @@
    leaf order a permutation, initial callback pairs each exactly once.  The theorems below are about
    the Gallina transcription (Model/Linkage.v) and about the reference functions. *)
 From Coq Require Import Permutation.
-From HpoV Require Import Model.Base Model.Group Model.Linkage Run.C17 Proofs.C17P Proofs.C17R.
+From HpoV Require Import Model.Base Model.Group Model.Linkage Run.C17 Proofs.C17P Proofs.C17R Proofs.LinkageP.
 
 (* utils::Combinations, for EVERY fuel: what the iterator state machine yields from state
    (idx1, idx2) is the rest of row idx1 followed by all later rows, live entries only *)
@@ -55,9 +55,36 @@ Theorem C17_single_root_means_n_minus_1_merges : forall mt table mode (sets : li
   (length cs + 1 = length sets)%nat /\ sz (Nlen sets) sizes x = Nlen sets.
 Proof. exact replay_single_root. Qed.
 
+(* ---- the clustering loop itself (every number type, every distance function, all four methods) ---- *)
+
+(* a successful run on n >= 1 sets is a sequence of merges [mrun]; every merge [merged] joins the
+   entry closest_clusters returns for the matrix of THAT moment (a minimum of it:
+   C17_closest_is_minimum), its two nodes are live and distinct, the reported size is the sum of the
+   two sizes, the matrix holds at every moment exactly the pairs of live nodes [LI]; the run ends
+   after exactly n-1 merges with one live node *)
+Theorem C17_clustering_run : forall (F : Type) flt fgt mean dist mt sets sf, (1 <= length sets)%nat ->
+  linkage F flt fgt mean dist mt sets = Ok sf ->
+  exists s0, l_new F dist sets = Ok s0 /\ l_clusters F s0 = [] /\ mrun F flt s0 sf /\ LI F sf /\
+    (length (l_clusters F sf) + 1 = length sets)%nat /\ nlive (l_sets F sf) = 1%nat.
+Proof. exact linkage_run. Qed.
+
+(* single / complete / average: the distance from every other live node to the new cluster is the
+   method's combination (minimum / maximum / mean) of its distances to the two merged nodes, and all
+   distances between other nodes are kept *)
+Theorem C17_distances_follow_method : forall (F : Type) flt fgt mean mt (s s' : lstate F) i j d, LI F s ->
+  arith_round F flt fgt mean mt s = Ok (Some s') -> closest F flt (l_dm F s) = Some (i, j, d) ->
+  (forall idx, live (l_sets F s) idx -> idx <> i -> idx <> j ->
+     exists v, arith F flt fgt mean mt (dm_get F (pair_key idx i) (l_dm F s)) (dm_get F (pair_key idx j) (l_dm F s)) = Ok v /\
+               dm_get F (idx, length (l_sets F s)) (l_dm F s') = Some v) /\
+  (forall a b, a <> i -> a <> j -> b <> i -> b <> j -> b <> length (l_sets F s) ->
+     dm_get F (a, b) (l_dm F s') = dm_get F (a, b) (l_dm F s)).
+Proof. exact arith_round_distances. Qed.
+
 Print Assumptions C17_combinations_state_machine.
 Print Assumptions C17_initial_pairs_each_once.
 Print Assumptions C17_closest_is_minimum.
 Print Assumptions C17_leaf_order_permutation.
 Print Assumptions C17_accepted_merges_form_a_dendrogram.
 Print Assumptions C17_single_root_means_n_minus_1_merges.
+Print Assumptions C17_clustering_run.
+Print Assumptions C17_distances_follow_method.
